@@ -215,6 +215,15 @@ func printReport(obls []*Obligation, verbose bool) {
 			}
 		}
 	}
+	// slow obligations are unstable ones: list them
+	for _, g := range gs {
+		for _, o := range g.obls {
+			if o.TimeS > 2.0 && o.Status == "proved" {
+				fmt.Printf("SLOW     %-60s %.1fs by %s\n", g.name, o.TimeS, o.Solver)
+				break
+			}
+		}
+	}
 	var ss []string
 	for s, n := range bySolver {
 		ss = append(ss, fmt.Sprintf("%s=%d", s, n))
